@@ -1,2 +1,12 @@
 import Spydr.Xform.Props.C08
 import Spydr.Xform.Props.C09
+open Spydr.Xform
+#print axioms uniquify_wf
+#print axioms uniquify_unique
+#print axioms uniquify_preserves_elab
+#print axioms uniquify_preserves_nets
+#print axioms uniquify_fresh_names
+#print axioms uniquify_step_position
+#print axioms uniquify_idem
+#print axioms flatten_leaves
+#print axioms leaf_occurrence_unique
